@@ -212,6 +212,24 @@ class SimTransport(asyncio.Transport):
                     self._proto_paused = False
                     self._protocol.resume_writing()
 
+    def net_take(self, n):
+        """A client that reads slowly: while it is 'not reading' it takes n of the bytes the transport holds for it.  As with the selector
+        transport, a close() that was waiting for the buffer completes when the last byte has gone, and the protocol is told to resume
+        once the buffer has fallen to a quarter of its capacity (the low-water mark)."""
+        if self._lost or not self.paused or not self.pending:
+            return
+        d, self.pending = bytes(self.pending[:n]), self.pending[n:]
+        self.trace.ev("client", "take", n=len(d))
+        self._deliver(d)
+        if not self.pending and getattr(self, "_close_waits_for_flush", False):
+            self._close_waits_for_flush = False
+            self.closed_at = self._loop.time()
+            self._loop.call_soon(self._call_lost, None)
+            return
+        if self.capacity and self._proto_paused and len(self.pending) <= self.capacity // 4:
+            self._proto_paused = False
+            self._protocol.resume_writing()
+
     def net_reset(self):
         self.trace.ev("client", "reset")
         if self._lost:
